@@ -387,6 +387,16 @@ def _frac(x):
     return D(x)
 
 
+# "everything I hold, as I read it, rounded to the token's 18 decimals" (what a caller does who rounds the displayed balance to wei)
+QUANT = {"q18up": "ROUND_UP", "q18down": "ROUND_DOWN"}
+
+
+def _quant(x, how):
+    with localcontext() as c:
+        c.prec = 60
+        return D(x).quantize(D("1e-18"), rounding=QUANT[how])
+
+
 def _uni_positions(mk, free_only=False):
     ks = sorted(mk.positions.keys(), key=lambda p: (p.lower_tick, p.upper_tick))
     if free_only:
@@ -473,13 +483,19 @@ def run_op(u: Universe, op):
         if name == "supply":
             return m.supply(tk, _wal(u, t) * _frac(args[1]), args[2])
         if name == "withdraw":
-            amt = None if args[1] is None else (m._supplies[tk].base_amount * li * _frac(args[1]) if tk in m._supplies else _frac(args[1]))
+            if args[1] in QUANT:
+                amt = _quant(m._supplies[tk].base_amount * li, args[1]) if tk in m._supplies else D(1)
+            else:
+                amt = None if args[1] is None else (m._supplies[tk].base_amount * li * _frac(args[1]) if tk in m._supplies else _frac(args[1]))
             return m.withdraw(tk, amt)
         if name == "borrow":
             amt = None if args[1] is None else m.get_max_borrow_amount(tk) * _frac(args[1])
             return m.borrow(tk, amt)
         if name == "repay":
-            amt = None if args[1] is None else (m._borrows[tk].base_amount * bi * _frac(args[1]) if tk in m._borrows else _frac(args[1]))
+            if args[1] in QUANT:
+                amt = _quant(m._borrows[tk].base_amount * bi, args[1]) if tk in m._borrows else D(1)
+            else:
+                amt = None if args[1] is None else (m._borrows[tk].base_amount * bi * _frac(args[1]) if tk in m._borrows else _frac(args[1]))
             ct = u.tok[pick(args[3])] if args[3] else None
             return m.repay(tk, amt, args[2], ct)
         if name == "flag":
